@@ -434,6 +434,13 @@ static const seed_t seeds[] = {
     { "npd-compat", F_NPD, "npd",
 	"#:rows 1\n#:columns 1\n#:frequencies 1\n#:parameters Yri\n"
 	"#:z0 50 0\n1 2 3\n", SF_L2 },
+    { "npd-legacy-z0-mid", F_NPD, "npd",
+	"#NPD\n#:version 1.0\n#:rows 2\n#:columns 2\n#:z0 50 0 75 0\n"
+	"#:frequencies 1\n#:parameters Sma\n#:fprecision 9\n"
+	"#:dprecision 9\n1e6 1 2 3 4 5 6 7 8\n", 0 },
+    { "npd-legacy-fz0", F_NPD, "npd",
+	"#:rows 1\n#:columns 1\n#:z0 PER-FREQUENCY\n#:frequencies 2\n"
+	"#:parameters Zri\n1 50 0 1 2\n2 60 1 3 4\n", SF_L2 },
     { "npd-zin", F_NPD, "npd",
 	"#:ports 2\n#:frequencies 1\n#:parameters SRL,zinri\n"
 	"1 1 2 3 4 5 6 7 8\n", SF_L2 },
@@ -495,7 +502,7 @@ static const kw_t kw_ts[] = {
     { 0, "[Reference]" }, { 0, "[Matrix Format]" }, { 0, "[Mixed-Mode Order]" },
     { 0, "[Begin Information]" }, { 0, "[End Information]" },
     { 0, "[Network Data]" }, { 0, "[Noise Data]" }, { 0, "[End]" },
-    { 1, "Hz" }, { 1, "kHz" }, { 1, "MHz" }, { 1, "GHz" }, { 1, "S" },
+    { 1, "Hz" }, { 1, "kHz" }, { 1, "MHz" }, { 1, "GHz" }, { 1, "THz" }, { 1, "S" },
     { 1, "Y" }, { 1, "Z" }, { 1, "H" }, { 1, "G" }, { 1, "DB" }, { 1, "MA" },
     { 1, "RI" }, { 1, "R" }, { 1, "#" }, { 1, "!" },
     { 2, "Full" }, { 2, "Lower" }, { 2, "Upper" }, { 2, "12_21" },
